@@ -69,26 +69,44 @@ func FinishCase(prop *SimProp, w *World, known *KnownFindings) CaseResult {
 	if prop.End != nil && w.Failed == "" && w.Deadlock == "" {
 		prop.End(w)
 	}
+	var all []Violation
 	for _, m := range w.Monitors {
-		vs := m.OnEnd(w)
-		for _, v := range vs {
-			trig := ""
-			if prop.Trigger != nil {
-				trig = prop.Trigger(w, v)
-			}
-			if trig != "" && known.KnownTrigger(v.Property, trig) {
-				res.Known = append(res.Known, v)
-				res.KnownTrig = append(res.KnownTrig, trig)
-				continue
-			}
-			res.Violations = append(res.Violations, v)
-		}
+		all = append(all, m.OnEnd(w)...)
 		for k, n := range m.Classes() {
 			res.Classes[k] += n
 		}
 		if m.NonTrivial() {
 			res.NonTrivial = true
 		}
+	}
+	// Attribute violations to known-finding histories. Once a known finding has
+	// manifested on a connection, the client's and the gateway's view of what the
+	// client holds have diverged: later violations on that connection are its
+	// downstream effects and are attributed to the same finding.
+	sort.SliceStable(all, func(i, j int) bool { return all[i].T < all[j].T })
+	tainted := map[int]string{}
+	for _, v := range all {
+		trig := ""
+		if prop.Trigger != nil {
+			trig = prop.Trigger(w, v)
+		}
+		if trig == "" && v.Conn >= 0 {
+			if t, ok := tainted[v.Conn]; ok {
+				trig = t
+				res.Classes["downstream_of_known_finding"]++
+			}
+		}
+		if trig != "" && known.KnownTrigger(v.Property, trig) {
+			res.Known = append(res.Known, v)
+			res.KnownTrig = append(res.KnownTrig, trig)
+			if v.Conn >= 0 {
+				if _, ok := tainted[v.Conn]; !ok {
+					tainted[v.Conn] = trig
+				}
+			}
+			continue
+		}
+		res.Violations = append(res.Violations, v)
 	}
 	if w.Deadlock != "" {
 		res.Violations = append(res.Violations, Violation{Property: prop.ID, Class: "deadlock", Message: "gateway goroutines parked at a non-idle wait, stable for 2s: " + w.Deadlock, Step: w.step})
@@ -125,6 +143,9 @@ func RunCase(rt *rapid.T, env *Env, prop *SimProp) {
 		prop.Custom(rt, w, p)
 	} else {
 		g = NewGen(rt, w, p)
+		if p.Prologue > 0 && rapid.IntRange(0, 99).Draw(rt, "prologue") < p.Prologue {
+			g.RunPrologue()
+		}
 		n := rapid.IntRange(p.MinOps, p.MaxOps).Draw(rt, "nops")
 		for i := 0; i < n && len(w.Script) < p.MaxOps*3; i++ {
 			if !g.Step() {
@@ -396,6 +417,7 @@ func dataProfile(name string, over map[string]int) *Profile {
 		CallOut:  map[string]int{"resource": 8, "result": 1, "err": 1},
 		QueryOut: map[string]int{"events": 10, "full": 4, "err": 1, "notfound": 1, "timeout": 1},
 		Throttle: true,
+		Prologue: 60,
 	}
 }
 
@@ -529,4 +551,56 @@ func resetQueryRace(w *World, name string) bool {
 		}
 	}
 	return race
+}
+
+// ---------------------------------------------------------------------------
+// Access properties: C04 (read gating), C05 (call gating, token currency), C06 (revocation)
+
+func accessConfig(t *rapid.T, p *Profile) WorldConfig {
+	cfg := WorldConfig{Resources: defaultResources(), Protocol: p.Protocol}
+	cfg.Resources = append(cfg.Resources, ResDef{Name: "t.q", Type: "model", Model: map[string]Val{"x": Prim("1")}, QueryMap: map[string]string{"a=1": "a=1", "b=1&a=1": "a=1&b=1", "a=1&b=1": "a=1&b=1"}})
+	if p.Throttle {
+		cfg.ResetThrottle = rapid.IntRange(0, 2).Draw(t, "resetthrottle")
+	}
+	if rapid.IntRange(0, 3).Draw(t, "mapping") == 0 {
+		cfg.PUTMethod = "set"
+		cfg.DELETEMethod = "delete"
+	}
+	return cfg
+}
+
+func accessProfile(name string, over map[string]int, acc map[string]int) *Profile {
+	return &Profile{Name: name, MinOps: 10, MaxOps: 55, MaxConns: 3, Versions: stdVersions, Protocol: true, Throttle: true,
+		W: weightsWith(mergeW(map[string]int{"badreq": 0, "burst": 0, "auth": 2, "call": 6, "new": 2, "mutate": 5, "custom": 5, "silent": 0,
+			"sysreset": 4, "qmutate": 0, "qevent": 1, "delete": 1, "reaccess": 6, "token": 6, "httpget": 3, "httppost": 2, "subscribe": 14, "get": 6, "unsubscribe": 5, "close": 1, "tokreset": 1}, over)),
+		AccessOut: acc,
+		GetOut:    map[string]int{"ok": 30, "notfound": 2, "err": 1, "timeout": 1},
+		CallOut:   map[string]int{"resource": 5, "result": 5, "err": 1, "timeout": 1, "null": 1},
+		Patterns:  []string{">", "t.>", "t.*", "*.a", "t.a", "t.b", "t.q", "x.>", "t..a", "*"},
+		Prologue:  75,
+	}
+}
+
+func init() {
+	register(&SimProp{
+		ID: "C04",
+		Profiles: []*Profile{accessProfile("c04-read", map[string]int{"get": 10, "httpget": 6, "new": 3},
+			map[string]int{"grant": 10, "getonly": 4, "deny": 6, "denied": 3, "err": 3, "timeout": 2, "noresult": 2, "noresp": 1, "callonly": 2})},
+		Config:   accessConfig,
+		Monitors: func() []Monitor { return []Monitor{NewMonC04()} },
+	})
+	register(&SimProp{
+		ID: "C05",
+		Profiles: []*Profile{accessProfile("c05-call", map[string]int{"call": 22, "new": 5, "httppost": 7, "auth": 4, "subscribe": 12, "mutate": 8},
+			map[string]int{"grant": 6, "calllist": 12, "callonly": 3, "deny": 2, "denied": 2, "err": 1, "timeout": 1})},
+		Config:   accessConfig,
+		Monitors: func() []Monitor { return []Monitor{NewMonC05()} },
+	})
+	register(&SimProp{
+		ID: "C06",
+		Profiles: []*Profile{accessProfile("c06-revoke", map[string]int{"custom": 14, "mutate": 8, "token": 9, "reaccess": 9, "sysreset": 6, "subscribe": 16, "call": 1, "new": 1, "auth": 0, "httpget": 0, "httppost": 0},
+			map[string]int{"grant": 10, "getonly": 3, "deny": 5, "denied": 3, "err": 2, "timeout": 2})},
+		Config:   accessConfig,
+		Monitors: func() []Monitor { return []Monitor{NewMonC06()} },
+	})
 }
